@@ -14,9 +14,12 @@ TxS(j) == [version |-> j.version, segwit |-> j.segwit, locktime |-> j.locktime,
 WithMeta(in, m) == [txid |-> in.txid, vout |-> in.vout, script |-> in.script, seq |-> in.seq, wit |-> in.wit, kind |-> m.kind,
                     amount |-> m.amount, pkh |-> m.pkh, pub |-> m.pub, keys |-> m.keys, m |-> m.m]
 Judge(r) == LET p == ParseTx(r.raw) IN
-            IF ~p.ok \/ Len(p.tx.ins) # Len(r.meta) THEN [ok |-> FALSE, digests |-> <<>>, nouts |-> 0]
+            IF ~p.ok \/ Len(p.tx.ins) # Len(r.meta) THEN [ok |-> FALSE, digests |-> <<>>, nouts |-> 0, ht |-> <<>>]
             ELSE LET tx == [p.tx EXCEPT !.ins = [i \in 1..Len(p.tx.ins) |-> WithMeta(p.tx.ins[i], r.meta[i])]] IN
-                 [ok |-> TRUE, digests |-> [i \in 1..Len(tx.ins) |-> Digest(tx, i)], nouts |-> Len(tx.outs)]
+                 [ok |-> TRUE, digests |-> [i \in 1..Len(tx.ins) |-> Digest(tx, i)], nouts |-> Len(tx.outs),
+                  \* BIP143 digests of the witness inputs for the other hash types (r.hts: the hash types asked for)
+                  ht |-> [i \in 1..Len(tx.ins) |-> IF tx.ins[i].kind \in SegwitKinds
+                                                     THEN [h \in 1..Len(r.hts) |-> DigestHT(tx, i, r.hts[h])] ELSE <<>>]]
 Out == [k \in 1..Len(Recs) |-> Judge(Recs[k])]
 ASSUME ndJsonSerialize(IOEnv.OUT_FILE, Out)
 =============================================================================
